@@ -223,7 +223,7 @@ func fileSinkSpecial(pa *Path) bool {
 
 func runC08(c *Ctx) {
 	p, r := c.P, c.R
-	r.Explanation = "Decides only the structural premises of 'FileSink never loses, duplicates, reorders or tears an acknowledged event': f / BytesWritten / LastCreated are accessed only with FileSink.l held (pairwise lock-set discipline; open, rotate, reopen and pruneFiles are entered only with the lock held) and rotation and the write lie in one critical section; every file open of the sink is os.OpenFile with constant flags containing O_APPEND|O_CREATE|O_WRONLY and no O_TRUNC, and no os.Create / WriteFile / Truncate exists; success is acknowledged only after a write of exactly the event's bytes whose error was tested nil, the retry rewinds the same reader, and a second write only follows a failed first one; the destination is an *os.File (no buffering layer between acknowledgement and write(2)); os.Remove occurs only in pruning on elements of the sink's own glob, os.Rename only in rotation after the file was closed; pruning stops at the first file it cannot remove (so an older file never survives a newer one that was removed). C08.partial: a retry that writes the whole event again must have looked at how many bytes the failed attempt wrote (known finding F31: it does not — a partial first write leaves a fragment). C08.reopen: the exported Reopen always runs reopen() for a real file, and a successful reopen() ends in open() after closing a handle it still held (an external rename followed by Reopen moves the sink to the file now at the configured path). Crash atomicity, ordering across files and the retention-suffix clause are file-system / runtime behaviour and are not decided. C08.ack format-bytes-readonly: the bytes Event.Format handed out are only read — no store, copy into or append onto a re-slice of them."
+	r.Explanation = "Decides only the structural premises of 'FileSink never loses, duplicates, reorders or tears an acknowledged event': f / BytesWritten / LastCreated are accessed only with FileSink.l held (pairwise lock-set discipline; open, rotate, reopen and pruneFiles are entered only with the lock held) and rotation and the write lie in one critical section; every file open of the sink is os.OpenFile with constant flags containing O_APPEND|O_CREATE|O_WRONLY and no O_TRUNC, and no os.Create / WriteFile / Truncate exists; success is acknowledged only after a write of exactly the event's bytes whose error was tested nil, the retry rewinds the same reader, and a second write only follows a failed first one; the destination is an *os.File (no buffering layer between acknowledgement and write(2)); os.Remove occurs only in pruning on elements of the sink's own glob, os.Rename only in rotation after the file was closed; pruning stops at the first file it cannot remove (so an older file never survives a newer one that was removed). C08.partial: a retry that writes the whole event again must have looked at how many bytes the failed attempt wrote (known finding F31: it does not — a partial first write leaves a fragment). C08.reopen: the exported Reopen always runs reopen() for a real file, and a successful reopen() ends in open() after closing a handle it still held (an external rename followed by Reopen moves the sink to the file now at the configured path). Crash atomicity, ordering across files and the retention-suffix clause are file-system / runtime behaviour and are not decided. C08.ack format-bytes-readonly: the bytes Event.Format handed out are only read — no store, copy into or append onto a re-slice of them. C08.recover: a recovered panic reaches the error result (a recovering deferred function with unnamed results makes Process acknowledge)."
 	r.NotDecided = []string{"crash points (whole events after a kill)", "ordering across rotated files", "retention leaving a suffix", "what the file system does with an external rename while the file is open (only the Reopen path is decided)"}
 	c.lockControls()
 	must := c.MustLocks()
@@ -233,6 +233,7 @@ func runC08(c *Ctx) {
 	if fn := c.Fn("C08.retention", PkgRoot, "FileSink", "pruneFiles"); fn != nil {
 		c.errorFlowRule("C08.retention", fn, fileSinkErrExceptions, false)
 		c.ruleReadDirClassified("C08.retention")
+		c.ruleRecoverResults("C08.recover", []string{PkgRoot}, false)
 		c.ruleRotatedNameAs("C08.names")
 	}
 	c.rulePartialWrite()
@@ -751,7 +752,7 @@ func runC13(c *Ctx) {
 
 func runC14(c *Ctx) {
 	p, r := c.P, c.R
-	r.Explanation = "Decides, for both JSON formatters (sibling implementations that must agree): the value encoded is a struct whose JSON members are exactly created_at, event_type and payload, filled from e.CreatedAt, e.Type and e.Payload; a json.Encoder over the formatter's own buffer is used (newline-terminated output) and FormattedAs(\"json\", buf.Bytes()) happens only on the err == nil edge of Encode, an encoding error yields (nil, err); no field of the event is assigned; JSONFormatterFilter forwards its event parameter iff the predicate is nil or returned (true, nil), (nil, nil) iff false, (nil, err) on error, and Filter likewise without the nil case; Event.Formatted is accessed only inside FormattedAs (under Event.l for writing) and Format (under Event.l for reading) or through freshly allocated events. JSON round-trip faithfulness for exotic payloads is encoding/json semantics and is not decided. C14.pred call: a stock node calls a func-typed configuration field only where it was found non-nil. C14.errors looks into a repository helper the encode failure is handed to: the helper must return a non-nil error whenever it is given one. C14.table pairing: every section of Event.l is released on every path. C14.table Format:reads-table: see C13.format. C14.recover: recover discipline over the root package. C14.guard: lock discipline over every field of Event."
+	r.Explanation = "Decides, for both JSON formatters (sibling implementations that must agree): the value encoded is a struct whose JSON members are exactly created_at, event_type and payload, filled from e.CreatedAt, e.Type and e.Payload; a json.Encoder over the formatter's own buffer is used (newline-terminated output) and FormattedAs(\"json\", buf.Bytes()) happens only on the err == nil edge of Encode, an encoding error yields (nil, err); no field of the event is assigned; JSONFormatterFilter forwards its event parameter iff the predicate is nil or returned (true, nil), (nil, nil) iff false, (nil, err) on error, and Filter likewise without the nil case; Event.Formatted is accessed only inside FormattedAs (under Event.l for writing) and Format (under Event.l for reading) or through freshly allocated events. JSON round-trip faithfulness for exotic payloads is encoding/json semantics and is not decided. C14.pred call: a stock node calls a func-typed configuration field only where it was found non-nil. C14.errors looks into a repository helper the encode failure is handed to: the helper must return a non-nil error whenever it is given one. C14.table pairing: every section of Event.l is released on every path. C14.table Format:reads-table: see C13.format. C14.recover: recover discipline over the root package. C14.guard: lock discipline over every field of Event. C14.store encoded-bytes-readonly: nothing writes through the encoder's buf.Bytes() (here or in a helper it is handed to) before FormattedAs stores it."
 	r.NotDecided = []string{"round-trip faithfulness of encoding/json for arbitrary payloads (A4)"}
 	c.lockControls()
 	tb := p.NewTerms(nil)
@@ -1065,6 +1066,7 @@ func runC14(c *Ctx) {
 	// every field of Event, not only the table: a counter or memo added to Event and updated by Format (under the READ lock) is written by concurrent readers
 	c.guardRule("C14.guard", []string{"eventlogger.Event"}, nil, false)
 	c.ruleRecoverResults("C14.recover", []string{PkgRoot}, false)
+	c.ruleEncodedBytesReadOnly("C14.store", PkgRoot)
 	// ... and every section of Event.l is released on every path (a read lock leaked on an early return blocks the next FormattedAs for good)
 	c.pairingRule("C14.table", func(fn *ssa.Function) bool {
 		return PkgPathOf(fn) == PkgRoot && fn.Signature.Recv() != nil && typeShort(fn.Signature.Recv().Type()) == "eventlogger.Event"
@@ -2186,9 +2188,20 @@ func countingHelper(f *ssa.Function) bool {
 	for _, in := range f.Blocks[0].Instrs {
 		switch x := in.(type) {
 		case *ssa.Store:
-			stores++
 			fa, isFA := x.Addr.(*ssa.FieldAddr)
 			bo, isB := x.Val.(*ssa.BinOp)
+			// other bookkeeping of the sink's own (an events counter) may live next to the count; the
+			// rotation inputs and the handle may not
+			if isFA && fa.X == ssa.Value(f.Params[0]) {
+				switch fa.X.Type().Underlying().(*types.Pointer).Elem().Underlying().(*types.Struct).Field(fa.Field).Name() {
+				case "BytesWritten":
+					stores++
+				case "LastCreated", "f":
+					return false
+				}
+			} else {
+				return false
+			}
 			if isFA && isB && fa.X == ssa.Value(f.Params[0]) && bo.Op == token.ADD && bo.Y == ssa.Value(f.Params[1]) {
 				if ld, isLd := bo.X.(*ssa.UnOp); isLd && ld.Op == token.MUL {
 					if fa2, ok2 := ld.X.(*ssa.FieldAddr); ok2 && fa2.X == fa.X && fa2.Field == fa.Field &&
